@@ -2,7 +2,9 @@
 
 Alphabet (DESIGN 5/C16): Whitener and PCA used directly on centred n x p matrices (n > p, full column rank,
 geometric singular-value ladder with condition number 1e1 / 1e3 / 1e6), real and complex, numpy and dask
-(feature dimension in one chunk; sample dimension in one or in several chunks).
+(feature dimension in one chunk; sample dimension in one or in several chunks). Whitener cases additionally carry a
+units coordinate: the same matrix multiplied by a global factor 1e-5 / 1e-3 / 1 / 1e4, or with per-feature units
+(factors from 1 down to 1e-5 across the features); every clause is relative to the scaled quantities.
 
 Oracle clauses (plain numpy on plain matrices; eigh for matrix powers and leading subspaces):
   whitener  (a) exists nu in {N, N-1}: cov_nu(X T) = cov_nu(X)^alpha        (identity at 0, unchanged at 1)
@@ -11,6 +13,8 @@ Oracle clauses (plain numpy on plain matrices; eigh for matrix powers and leadin
             (d) component round trips both ways
             (f) the data map and the component map are the same change of basis:
                 transform(S P^H) = S transform_components(P)^H, same for the two inverse maps
+            (g) units: fitting on c X instead of X gives T_c = c^(alpha-1) T and whitened data c^alpha (X T)
+                (alpha = 0: the whitened data do not depend on the units) -- a relation between two real fits
   PCA       (e) V^H V = I, V V^H = projector on the reference leading-k subspace
             (b) data rows inside the retained subspace come back; PC-space rows come back
             (d) patterns inside the retained subspace come back; PC-space patterns come back
@@ -35,7 +39,9 @@ TECHNIQUE = (
     "Whitener / PCA fits against numpy eigh references for matrix powers, inverses and leading subspaces"
 )
 RULE = (
-    "per matrix instance (1 quick, 2 thorough): Whitener: full product shape x cond in {1e1,1e3,1e6} x {real,complex} x alpha x {numpy, dask 1 sample chunk, dask 3 sample chunks}; "
+    "per matrix instance (1 quick, 2 thorough): Whitener: full product shape x cond in {1e1,1e3,1e6} x {real,complex} x alpha x {numpy, dask 1 sample chunk, dask 3 sample chunks} at unit scale, "
+    "plus units in {x1e-5, x1e-3, x1e4, per-feature 1..1e-5 (cond 1e1 only)} x {real,complex} x alpha x "
+    "(quick: shape 9x4, cond {1e1,1e6}, {numpy, dask 1 chunk}; thorough, first instance: every shape, cond and back-end); "
     "PCA: full product shape x cond x {real,complex} x n_modes in {every int 1..p, 'all', fractions x init_rank_reduction} x "
     "{numpy, dask x sample chunking x compute_eagerly}, except that the two documented refusals (complex+dask SVD, fractional n_modes on dask) "
     "are represented by one n_modes value each per data class; a case is non-trivial when the fit returned and every clause of its oracle "
@@ -45,12 +51,15 @@ ASSUMPTIONS = [
     "centred matrices U diag(s) V^H with U orthogonal to the ones vector, s a geometric ladder from 8 down to 8/cond, factors drawn from VERIF_SEED, stand for 'all centred full-column-rank matrices with cond <= 1e6'",
     "numpy.linalg.eigh / svd / matrix products are correct",
     "tolerance = 1e-9 (1e-7 for PCA, whose solver may be a sketching one) + 50 eps cond^e with the first-order exponent of each clause "
-    "(covariance of whitened data: e = 2(1-alpha), because xeofs forms X^H X; inverses and round trips: e = 1-alpha; PCA subspace: e = 1)",
+    "(covariance of whitened data: e = 2(1-alpha), because xeofs forms X^H X; inverses and round trips: e = 1-alpha; PCA subspace: e = 1; "
+    "units clause, two fits: 200 eps cond^2 for T and 200 eps cond^(2-alpha) for the whitened data)",
     "clause (f) (data map and component map are one and the same change of basis) is read from the title 'exact changes of basis' and "
     "from the defect class the property names (wrong exponent sign / missing conjugate in the pattern map that cancels in round trips)",
+    "clause (g) reads 'the whitening matrix is C^((alpha-1)/2)' (the mechanism the property anchors) as a scaling law between two fits; it needs no reference matrix power",
+    "units: tolerances use the condition number of the matrix actually handed to xeofs (per-feature units change it; it stays <= 1e6)",
     "PCA with a fractional n_modes: the number k of returned modes is taken from the model (its rule belongs to C15); C16 checks the k-dimensional subspace",
 ]
-TALLY_KEYS = ("model", "backend", "cplx", "cond", "shape", "alpha", "nmodes")
+TALLY_KEYS = ("model", "backend", "cplx", "cond", "shape", "alpha", "nmodes", "units")
 TRUSTED = ["dask.array evaluation of the graphs xeofs builds (threaded/synchronous default scheduler)"]
 MAX_REFUSED_FRACTION = 0.10
 
@@ -70,6 +79,16 @@ def _shapes(tier):
 
 def _alphas(tier):
     return [0.0, 0.25, 0.5, 0.9, 1.0] if tier == "quick" else [0.0, 0.1, 0.25, 0.5, 0.75, 0.9, 1.0]
+
+
+UNITS_GLOBAL = {"1e-5": 1e-5, "1e-3": 1e-3, "1": 1.0, "1e4": 1e4}
+
+
+def _unit_factors(units, p):
+    """Per-feature multipliers of the units coordinate."""
+    if units == "mixed":
+        return 10.0 ** (-5.0 * np.arange(p) / max(1, p - 1))
+    return np.full(p, UNITS_GLOBAL[units])
 
 
 def _backends(tier):
@@ -93,7 +112,19 @@ def _cases_for(tier, salt):
             for cplx in (False, True):
                 for alpha in _alphas(tier):
                     for (be, sch) in _backends(tier):
-                        out.append(dict(model="Whitener", salt=salt, shape=[n, p], cond=cond, cplx=cplx, alpha=alpha, backend=be, schunks=sch))
+                        out.append(dict(model="Whitener", salt=salt, shape=[n, p], cond=cond, cplx=cplx, alpha=alpha, backend=be, schunks=sch, units="1"))
+    # ---- Whitener in other units
+    if salt == 0:
+        q = tier == "quick"
+        for (n, p) in ([(9, 4)] if q else _shapes(tier)):
+            for units in ("1e-5", "1e-3", "1e4", "mixed"):
+                for cond in ([1e1, 1e6] if q else conds):
+                    if units == "mixed" and cond != 1e1:
+                        continue  # per-feature units multiply the condition number by up to 1e5
+                    for cplx in (False, True):
+                        for alpha in _alphas(tier):
+                            for (be, sch) in (_backends(tier)[:2] if q else _backends(tier)):
+                                out.append(dict(model="Whitener", salt=salt, shape=[n, p], cond=cond, cplx=cplx, alpha=alpha, backend=be, schunks=sch, units=units))
     # ---- PCA
     fracs = [(0.9, 0.3), (0.9, 1.0)] if tier == "quick" else [(0.5, 0.3), (0.5, 1.0), (0.9, 0.3), (0.9, 1.0), (0.99, 1.0)]
     for (n, p) in _shapes(tier):
@@ -183,13 +214,18 @@ def _run_whitener(case, seed):
 
     n, p = case["shape"]
     cond, cplx, alpha = case["cond"], case["cplx"], case["alpha"]
-    X, s = make_X(n, p, cond, cplx, seed, case["salt"])
+    units = case.get("units", "1")
+    X0, s = make_X(n, p, cond, cplx, seed, case["salt"])
+    X = X0 * _unit_factors(units, p)[None, :]
+    if units != "1":
+        sv = np.linalg.svd(X, compute_uv=False)
+        cond = float(sv[0] / sv[-1])  # the condition number of what xeofs is given
     fl = FEATURE_LABELS(p)
     sl = np.arange(n)
     nl = np.arange(N_NEW) + 100
     ml = np.arange(1, M_PAT + 1)
     da = _wrap(_da(X, "sample", sl, "feature", fl, "data"), case)
-    feats = dict(backend=case["backend"], cplx=cplx, alpha=_alpha_class(alpha))
+    feats = dict(backend=case["backend"], cplx=cplx, alpha=_alpha_class(alpha), units=units)
     V = []
 
     def bad(check, msg, **extra):
@@ -304,10 +340,31 @@ def _run_whitener(case, seed):
     if not e <= 1e-9:
         bad("pattern_data_consistency", "inverse_transform_data(S Q^H) != S inverse_transform_components(Q)^H: rel.err %.3e" % e, direction="inverse")
 
+    # ---- (g) units: a fit on c X0 against a fit on X0 (two runs of the real code): T_c = c^(alpha-1) T_1, Y_c = c^alpha Y_1
+    if units in UNITS_GLOBAL and units != "1":
+        c = UNITS_GLOBAL[units]
+        # two independent fits; the smallest eigenvalue of the formed X^H X carries a relative error eps cond^2, which enters T's
+        # largest entries in full and the whitened data damped by cond^-alpha
+        tol_uT = 1e-9 + (4 * K_ROUND * EPS * cond**2 if alpha < 1 else 0.0)
+        tol_uY = 1e-9 + (4 * K_ROUND * EPS * cond ** (2 - alpha) if alpha < 1 else 0.0)
+        W1 = Whitener(alpha=alpha, random_state=5)
+        Y1 = _mat(W1.fit_transform(_wrap(_da(X0, "sample", sl, "feature", fl, "data"), case)), ["sample"], ["feature"], refX)
+        e = _rel(Ym, c**alpha * Y1, c**alpha * np.abs(Y1).max())
+        worst["units_data"] = e / tol_uY
+        if not e <= tol_uY:
+            what = "fully whitened data depend on the units of the input" if alpha == 0 else "whitened data of c X are not c^alpha times those of X"
+            bad("units_invariance", "%s (c=%s): rel.err %.3e (tol %.1e)" % (what, units, e, tol_uY), what="data")
+        if W.T.ndim == 2:
+            W1T = _mat(W1.T, ["feature"], ["mode"], {"feature": fl, "mode": fl})
+            e = _rel(T, c ** (alpha - 1) * W1T, c ** (alpha - 1) * np.abs(W1T).max())
+            worst["units_T"] = e / tol_uT
+            if not e <= tol_uT:
+                bad("units_invariance", "T fitted on c X is not c^(alpha-1) times T fitted on X (c=%s): rel.err %.3e (tol %.1e)" % (units, e, tol_uT), what="T")
+
     if V:
         return dict(violations=V, outcome="violation", nontrivial=False)
     tag = "both" if len(matched) == 2 else matched[0]
-    return dict(violations=V, outcome="ok:whitener:nu=" + tag, nontrivial=Ym.size > 0 and T.size > 0, info=dict(be=case["backend"], nu=tag, worst=max(worst.values()), worst_at=max(worst, key=worst.get)))
+    return dict(violations=V, outcome="ok:whitener:nu=" + tag, nontrivial=Ym.size > 0 and T.size > 0, info=dict(be=case["backend"], units=units, nu=tag, worst=max(worst.values()), worst_at=max(worst, key=worst.get)))
 
 
 def _refusal(case, e):
@@ -496,4 +553,9 @@ def vacuity(outcomes, results, tier):
     for want in (("whitener", "numpy"), ("whitener", "dask"), ("pca", "numpy"), ("pca", "dask")):
         if want not in seen:
             return "no %s case passed on the %s back-end" % want
+    seen_u = {((r.get("info") or {}).get("units"), (r.get("info") or {}).get("be")) for r in results if r["outcome"].startswith("ok:whitener:nu=N")}
+    for u in ("1e-5", "1e-3", "1", "1e4", "mixed"):
+        for be in ("numpy", "dask"):
+            if (u, be) not in seen_u:
+                return "no alpha<1 whitener case in units %s passed on the %s back-end" % (u, be)
     return None
